@@ -303,6 +303,13 @@ func (gme *GCPMultiEndpoint) UpdateMultiEndpoints(meOpts *GCPMultiEndpointOption
 	if _, ok := meOpts.MultiEndpoints[meOpts.Default]; !ok {
 		return fmt.Errorf("default MultiEndpoint %q missing options", meOpts.Default)
 	}
+	// Reject invalid options before changing anything, so that a failed update leaves
+	// the routing exactly as it was.
+	for name, meo := range meOpts.MultiEndpoints {
+		if meo == nil || len(meo.Endpoints) == 0 {
+			return fmt.Errorf("MultiEndpoint %q has no endpoints", name)
+		}
+	}
 
 	validPools := make(map[string]bool)
 	for _, meo := range meOpts.MultiEndpoints {
@@ -312,17 +319,25 @@ func (gme *GCPMultiEndpoint) UpdateMultiEndpoints(meOpts *GCPMultiEndpointOption
 	}
 
 	// Add missing pools.
+	var created []string
 	for e := range validPools {
 		if _, ok := gme.pools[e]; !ok {
 			// This creates a ClientConn with the gRPC-GCP balancer managing connection pool.
 			conn, err := gme.dialFunc(context.Background(), e, gme.opts...)
 			if err != nil {
+				// Do not leave the pools created by this call (and their monitors) behind.
+				for _, c := range created {
+					gme.pools[c].stopMonitoring()
+					gme.pools[c].conn.Close()
+					delete(gme.pools, c)
+				}
 				return err
 			}
 			if gme.log.V(FINE) {
 				gme.log.Infof("created new channel pool for %q endpoint.", e)
 			}
 			gme.pools[e] = newMonitoredConn(e, conn, gme)
+			created = append(created, e)
 		}
 	}
 
